@@ -82,6 +82,10 @@ func funcCandidateCases(run *Run, r *rand.Rand, n int) {
 		for ti, t := range funcTypePool {
 			attrs[fmt.Sprintf("a%d", ti)] = &schema.AttributeSchema{IsOptional: true, Constraint: schema.AnyExpression{OfType: t}}
 		}
+		// maps of every pool type: a key written in parentheses is a string whatever the element type
+		for ti, t := range funcTypePool {
+			attrs[fmt.Sprintf("m%d", ti)] = &schema.AttributeSchema{IsOptional: true, Constraint: schema.AnyExpression{OfType: cty.Map(t)}}
+		}
 		sch := &schema.BodySchema{Attributes: attrs}
 
 		type probe struct {
@@ -113,6 +117,12 @@ func funcCandidateCases(run *Run, r *rand.Rand, n int) {
 				}
 			}
 		}
+		for ti := range funcTypePool {
+			probes = append(probes, probe{fmt.Sprintf("m%d = { () = null }", ti), "", cty.String})
+			for _, p := range prefixes()[1:3] {
+				probes = append(probes, probe{fmt.Sprintf("m%d = { (%s) = null }", ti, p), p, cty.String})
+			}
+		}
 		// second and later arguments of a variadic function
 		for _, p := range prefixes() {
 			probes = append(probes, probe{fmt.Sprintf("a3 = wrapv(\"s\", %s", p), p, vt})
@@ -125,6 +135,10 @@ func funcCandidateCases(run *Run, r *rand.Rand, n int) {
 			cut := len(src)
 			if strings.HasSuffix(src, "]") {
 				cut--
+				closed = false
+			}
+			if i := strings.Index(src, ") = null }"); i >= 0 {
+				cut = i
 				closed = false
 			}
 			if closed {
